@@ -32,26 +32,66 @@ theorem validate_writes_nothing (rejects : Obj → Bool) (fault : Fault) (p : Pa
 
 /-- **All or nothing.** If some object of the package (the `j`-th, whose goroutine is
 among those that ran) cannot be taken over — an active revision finds it
-controlled by a different revision or owner — or the API server would reject what
-Establish submits for it, then Establish fails and the store *and the log of
-non-dry-run writes* are exactly what they were: no object of the package is
+controlled by a different revision or owner; or the API server would reject what
+Establish submits for it; or it is a CRD with webhook conversion and the active
+parent has no TLS bundle for it — then Establish fails and the store *and the log
+of non-dry-run writes* are exactly what they were: no object of the package is
 created or modified and no real write is even attempted. For every fault plan
 and every completion order. -/
 theorem all_or_nothing (rejects : Obj → Bool) (fault : Fault) (p : Parent) (control : Bool)
     (s : Store) (objs : List Desired) (vorder eorder : List Nat)
     (j : Nat) (d : Desired) (hd : objs[j]? = some d) (hj : j ∈ vorder)
     (hb : (control = true ∧ ForeignControlled p s d) ∨
-          (∃ o, submission p control s d = some o ∧ rejects o = true)) :
+          (∃ o, submission p control s d = some o ∧ rejects o = true) ∨
+          (control = true ∧ d.needsCA = true ∧ p.tls ≠ .present)) :
     (establish rejects fault p control s objs vorder eorder).1 = s ∧
     ∀ refs, (establish rejects fault p control s objs vorder eorder).2 ≠ .ok refs := by
+  have hone : (validateOne rejects fault p control s j d).2.failed := by
+    rcases hb with h | h | ⟨hc, hn, ht⟩
+    · exact validateOne_blocked rejects fault p control s j d (Or.inl h)
+    · exact validateOne_blocked rejects fault p control s j d (Or.inr h)
+    · subst hc; exact validateOne_needsCA rejects fault p s j d hn ht
   have hs := validateAll_store rejects fault p control s (pick objs vorder)
   have hf := validateAll_failed rejects fault p control s (pick objs vorder) j d
-    (mem_pick objs vorder j d hd hj) (validateOne_blocked rejects fault p control s j d hb)
+    (mem_pick objs vorder j d hd hj) hone
   unfold establish
-  split <;> rename_i heq <;> rw [heq] at hs hf
-  · exact absurd hf (by simp [R.failed])
-  · exact ⟨hs, fun _ h => by cases h⟩
-  · exact ⟨hs, fun _ h => by cases h⟩
+  split
+  · exact ⟨rfl, fun _ h => by cases h⟩
+  · exact ⟨rfl, fun _ h => by cases h⟩
+  · unfold establishCore
+    split <;> rename_i heq <;> rw [heq] at hs hf
+    · exact absurd hf (by simp [R.failed])
+    · exact ⟨hs, fun _ h => by cases h⟩
+    · exact ⟨hs, fun _ h => by cases h⟩
+
+/-- More generally, *any* failure of the dry-run phase — a transient API error or a
+crash at any Get or dry-run call included — leaves the store and the write log
+untouched: the establish phase is never entered. -/
+theorem dry_run_phase_failure_writes_nothing (rejects : Obj → Bool) (fault : Fault) (p : Parent) (control : Bool)
+    (s : Store) (objs : List Desired) (vorder eorder : List Nat)
+    (hf : (validateAll rejects fault p control s (pick objs vorder)).2.failed) :
+    (establish rejects fault p control s objs vorder eorder).1 = s := by
+  have hs := validateAll_store rejects fault p control s (pick objs vorder)
+  unfold establish
+  split
+  · rfl
+  · rfl
+  · unfold establishCore
+    split <;> rename_i heq <;> rw [heq] at hs hf
+    · exact absurd hf (by simp [R.failed])
+    · exact hs
+    · exact hs
+
+/-- A controlling parent with a runtime whose webhook TLS secret cannot be read, is
+missing or holds an empty certificate establishes nothing at all. -/
+theorem tls_failure_writes_nothing (rejects : Obj → Bool) (fault : Fault) (p : Parent)
+    (s : Store) (objs : List Desired) (vorder eorder : List Nat)
+    (ht : p.tls = .missing ∨ p.tls = .empty) :
+    establish rejects fault p true s objs vorder eorder = (s, .crash) ∨
+    ∃ e, establish rejects fault p true s objs vorder eorder = (s, .err e) := by
+  unfold establish getCert
+  rcases ht with ht | ht <;> rw [ht] <;> simp only [Bool.not_true, Bool.false_eq_true, if_false] <;>
+    cases fault 0 .tls <;> simp
 
 /-! ## 2. Role laws of one Establish -/
 
@@ -300,12 +340,13 @@ theorem addController_matches_library :
   decide
 
 theorem owner_constructors_match_library :
-    asController ⟨7, "", []⟩ = ofGen Xp.Gen.c16AsController ∧ asOwner ⟨7, "", []⟩ = ofGen Xp.Gen.c16AsOwner := by
+    asController { uid := 7, label := "", owners := [] } = ofGen Xp.Gen.c16AsController ∧
+    asOwner { uid := 7, label := "", owners := [] } = ofGen Xp.Gen.c16AsOwner := by
   decide
 
 theorem pkgRef_matches_library :
     Xp.Gen.c16PkgRefTable.all (fun c =>
-      (pkgRef ⟨99, c.1, c.2.1.zipIdx.map fun (n, i) => ⟨n, ⟨i, some true, none⟩⟩⟩).map (·.uid) == c.2.2) = true := by
+      (pkgRef { uid := 99, label := c.1, owners := c.2.1.zipIdx.map fun (n, i) => ⟨n, ⟨i, some true, none⟩⟩ }).map (·.uid) == c.2.2) = true := by
   decide
 
 /-! ## 6. The hypotheses are satisfiable, and the statements discriminate -/
@@ -313,8 +354,8 @@ theorem pkgRef_matches_library :
 section Examples
 
 /-- revision 11 of package 1 (its own owner reference points to the package) -/
-def exRev11 : Parent := ⟨11, "pkg-1", [⟨"pkg-1", ⟨1, some true, some true⟩⟩]⟩
-def exRev10 : Parent := ⟨10, "pkg-1", [⟨"pkg-1", ⟨1, some true, some true⟩⟩]⟩
+def exRev11 : Parent := { uid := 11, label := "pkg-1", owners := [⟨"pkg-1", ⟨1, some true, some true⟩⟩] }
+def exRev10 : Parent := { uid := 10, label := "pkg-1", owners := [⟨"pkg-1", ⟨1, some true, some true⟩⟩] }
 
 /-- `a` is controlled by revision 20 of another package (2); `c` by the previous revision 10 of package 1 -/
 def exStore : Store :=
@@ -334,17 +375,17 @@ example : WF exStore := by
     rcases ho with rfl | rfl <;> simp [exStore]
 
 /-- the hypothesis of `all_or_nothing` holds for `a` … -/
-example : ForeignControlled exRev11 exStore ⟨"Composition/a", 7⟩ :=
+example : ForeignControlled exRev11 exStore { key := "Composition/a", body := 7 } :=
   ⟨_, rfl, ⟨20, some true, some true⟩, by simp, rfl, by decide, fun q hq => by
     simp [pkgRef, exRev11] at hq; subst hq; decide⟩
 
 /-- … and indeed nothing is written although `b` alone could have been created … -/
-example : establish exOk Fault.none exRev11 true exStore [⟨"Composition/b", 5⟩, ⟨"Composition/a", 7⟩] [0, 1] [0, 1]
+example : establish exOk Fault.none exRev11 true exStore [{ key := "Composition/b", body := 5 }, { key := "Composition/a", body := 7 }] [0, 1] [0, 1]
     = (exStore, .err .notControllable) := by decide
 
 /-- … while without the blocked object the same call does create `b`, controlled by
 revision 11 and plainly owned by package 1 (the conclusion is not vacuous). -/
-example : (establish exOk Fault.none exRev11 true exStore [⟨"Composition/b", 5⟩] [0] [0]).1.objs =
+example : (establish exOk Fault.none exRev11 true exStore [{ key := "Composition/b", body := 5 }] [0] [0]).1.objs =
     exStore.objs ++ [⟨"Composition/b", 3, [⟨11, some true, some true⟩, ⟨1, some false, some true⟩], 5⟩] := by decide
 
 /-- An upgrade reconciled "in the wrong order": revision 11 is made active and
@@ -353,8 +394,8 @@ reconcile fails without touching anything (all-or-nothing); after revision 10 wa
 reconciled (release: controller → false, entry kept) revision 11 takes over. -/
 def exEnv : Env := ⟨exOk, Fault.none, [0], [0], [0], exAll, id⟩
 def exSys : Sys := ⟨exStore, fun u => if u = 10 then [⟨"Composition/c", true⟩] else []⟩
-def exNew : Rev := ⟨exRev11, true, [⟨"Composition/c", 9⟩]⟩
-def exOld : Rev := ⟨exRev10, false, [⟨"Composition/c", 1⟩]⟩
+def exNew : Rev := ⟨exRev11, true, [{ key := "Composition/c", body := 9 }]⟩
+def exOld : Rev := ⟨exRev10, false, [{ key := "Composition/c", body := 1 }]⟩
 
 example : (reconcileRev exSys exNew exEnv).1.store = exStore := by decide
 
@@ -366,7 +407,7 @@ lists the same object twice passes the dry-run phase (each copy is fine on its
 own) and then fails half-way. No object is "blocked" in the sense of
 `all_or_nothing`, so this is outside the property as worded (the code comments
 acknowledge duplicates, crossplane issue 3466). -/
-example : establish exOk Fault.none exRev11 true ⟨[], 1, []⟩ [⟨"Composition/b", 5⟩, ⟨"Composition/b", 5⟩] [0, 1] [0, 1]
+example : establish exOk Fault.none exRev11 true ⟨[], 1, []⟩ [{ key := "Composition/b", body := 5 }, { key := "Composition/b", body := 5 }] [0, 1] [0, 1]
     = (⟨[⟨"Composition/b", 1, [⟨11, some true, some true⟩, ⟨1, some false, some true⟩], 5⟩], 2,
         [⟨.create, "Composition/b", none, true⟩, ⟨.create, "Composition/b", some .alreadyExists, false⟩]⟩,
        .err .alreadyExists) := by decide
